@@ -253,10 +253,15 @@ func (a *Aggregator) AddMaybe(buf [][]byte, val float64, ts uint32) bool {
 		}
 	}
 
-	a.in <- msg{
+	select {
+	case a.in <- msg{
 		buf,
 		val,
 		ts,
+	}:
+	case <-a.shutdown:
+		// the aggregator was removed from the table while this dispatcher still worked with the previous
+		// table: nobody reads a.in any more, so waiting for room in it would block forever
 	}
 
 	return a.DropRaw
